@@ -3,7 +3,7 @@ import json
 from props import funcs_common as FC
 from gens.programs import Opts
 
-THEOREMS = ['infinite_fields', 'finite_fields', 'bound_one_entry_per_variable', 'choices_exact']
+THEOREMS = ['infinite_fields', 'finite_fields', 'bound_one_entry_per_variable', 'choices_exact', 'finite_result_same_in_both_modes']
 RULE = ('every function of the generated stream x {fin} x {strict}: field-by-field consistency of the real FuncResult '
         '(infinite => no bound/choices, relation iff fin; finite => relation, >=1 valid vector of length = degree, one '
         'bound entry per variable), choice object vs "relation has no infinity at the vector" for all 3^k vectors (Lean '
